@@ -56,7 +56,13 @@ def log_marginal(p, v):
     return float(m + np.log(np.exp(terms - m).sum()))
 
 
-def one_case(ctx, kind, n, h, scale, am, ph, tag=None, am2=None, ph2=None, aseed=None):
+def one_case(ctx, *args, **kw):
+    """one case; integer options handed over as objects outside every quantifier (np.uint8, 0-d arrays / tensors) and REFUSED by the
+    implementation are informational (argforms_a.tolerant, second audit X-1)"""
+    af.tolerant(ctx, _one_case, ctx, *args, **kw)
+
+
+def _one_case(ctx, kind, n, h, scale, am, ph, tag=None, am2=None, ph2=None, aseed=None):
     """evaluate at (am, ph); then, on the SAME state object and the SAME space tensors, overwrite the parameters with
     (am2, ph2) and evaluate again (history: results must follow the current parameters, not earlier calls).
     `aseed`: seed of the case's argument-form stream (harness/argforms_a.py); None = plain Python ints / bools by keyword (cases stored before round 5)"""
